@@ -163,6 +163,34 @@ def msg_mutations(data, struct, tier, enc):
                     yield ('field', s0, list(tup))
 
 
+def reframed_contents(data, struct, enc):
+    """('splice', start, end, bytes): every variable-length element with every contiguous stretch of its content taken
+    out (and, for short contents, every single position doubled) and its length prefix re-declared to match - the
+    message stays well framed, only what the element's processor (DE43 pattern, PDS, ICC, PAN, number / date parser)
+    is handed changes. Contents beyond 120 bytes: cut points every 29 bytes."""
+    spans = {n: (a, b) for n, a, b in struct}
+    for name, s0, e0 in struct:
+        if not (name.startswith('DE') and name.endswith('.data') and name.count('.') == 1):
+            continue
+        pre = spans.get(name[:-5] + '.prefix')
+        if not pre or pre[1] != s0:
+            continue
+        w = pre[1] - pre[0]
+        val = data[s0:e0]
+        step = 1 if len(val) <= 120 else 29
+        cuts = sorted(set(range(0, len(val) + 1, step)) | {len(val)})
+
+        def framed(v):
+            return list((('%0' + str(w) + 'd') % len(v)).encode(enc) + v)
+        for i in cuts:
+            for j in cuts:
+                if i < j:
+                    yield ('splice', pre[0], e0, framed(val[:i] + val[j:]))
+        if step == 1 and len(val) < 10 ** w - 1:
+            for i in range(len(val)):
+                yield ('splice', pre[0], e0, framed(val[:i] + val[i:i + 1] + val[i:]))
+
+
 def numeral_shapes(w):
     """texts a numeric / decimal / date element can be handed: every notation a number parser might know (exponents,
     fractions, signs, separators, prefixes, special values, other digit scripts), among them exponents so large that
@@ -206,6 +234,8 @@ def run_msg_task(task, acc):
     data, struct, cfg, cfgname = base
     if task.get('shapes'):
         muts = list(shape_mutations(data, struct, cfg, task['enc']))
+    elif task.get('reframe'):
+        muts = list(reframed_contents(data, struct, task['enc']))
     else:
         muts = list(msg_mutations(data, struct, task['tier'], task['enc']))
     part, of = task['part'], task['of']
@@ -512,6 +542,12 @@ def tasks(tier, seed):
             if name == 'wide' and enc != 'latin_1':
                 continue
             ts.append({'t': 'msg', 'msg': name, 'enc': enc, 'hex': hx, 'part': 0, 'of': 1, 'tier': tier, 'shapes': True})
+    # well-framed messages whose variable-length contents are shortened / stretched with the prefix re-declared
+    for name in names:
+        for enc, hx in (('latin_1', False), ('cp500', False), ('latin_1', True)):
+            if name in ('maxvar', 'wide') and enc != 'latin_1':
+                continue
+            ts.append({'t': 'msg', 'msg': name, 'enc': enc, 'hex': hx, 'part': 0, 'of': 1, 'tier': tier, 'reframe': True})
     # the same mutation sets of the administrative messages (and two ordinary ones), read through IpmReader
     for name in ('trailer', 'header', 'plain', 'pds'):
         for enc in ('latin_1', 'cp500'):
@@ -580,7 +616,9 @@ def describe(tier, seed):
                 'minimal, generated config) x {latin_1, cp500, ascii} x {binary, hex bitmap}: 0 deviations; every '
                 'truncation; every single-byte substitution (all 256 values) at %s; one-byte insert (4 values) / delete '
                 'at every offset; every pair of structural positions (length prefixes, PDS sub-lengths, TLV lengths, '
-                'bitmap bytes) x a 10-value alphabet. Closure: MTI + single-bit bitmap + every string of length <= %d '
+                'bitmap bytes) x a 10-value alphabet; every variable-length element with every contiguous stretch of '
+                'its content removed (or one position doubled) and the prefix re-declared, so the message stays well '
+                'framed. Closure: MTI + single-bit bitmap + every string of length <= %d '
                 'over 8 symbols for every configured bit (PKG, custom, generated). Files (VBS / 1014 / IPM with 1..4 '
                 'records): truncations, every value of every length-prefix and trailer byte, content substitutions, '
                 'insert/delete, pairs of length bytes. Configuration sequences: one caller-owned configuration object '
